@@ -128,6 +128,11 @@ pub struct Finding {
     pub what: String,
 }
 
+pub fn progress_on() -> bool {
+    static P: std::sync::OnceLock<bool> = std::sync::OnceLock::new();
+    *P.get_or_init(|| std::env::var_os("VERIF_PROGRESS").is_some())
+}
+
 pub fn verif_dir() -> PathBuf {
     std::env::var_os("VERIF_DIR").map_or_else(|| PathBuf::from("/verif"), PathBuf::from)
 }
@@ -203,6 +208,30 @@ pub fn scale_div() -> u64 {
     *D.get_or_init(|| std::env::var("VERIF_SCALE_DIV").ok().and_then(|s| s.parse().ok()).filter(|d| *d >= 1).unwrap_or(1))
 }
 
+/// Interpreter legs (Miri, ~10^4 times slower): VERIF_SAMPLE=K makes every monitor run only a random 1/K of
+/// its innermost cases (the shards use different seeds, so together they spread over the whole workload).
+/// Returns true when the case at hand is to be left out; always false in ordinary runs.
+pub fn sample_skip() -> bool {
+    static K: std::sync::OnceLock<u64> = std::sync::OnceLock::new();
+    let k = *K.get_or_init(|| std::env::var("VERIF_SAMPLE").ok().and_then(|s| s.parse().ok()).filter(|k| *k >= 1).unwrap_or(1));
+    if k <= 1 {
+        return false;
+    }
+    thread_local! {
+        static STATE: std::cell::Cell<u64> = std::cell::Cell::new({
+            let seed = std::env::var("VERIF_SEED").ok().and_then(|s| s.parse::<u64>().ok()).unwrap_or(1);
+            let mut x = seed ^ 0x5a17_e5ca_1e00_0001;
+            splitmix(&mut x)
+        });
+    }
+    STATE.with(|st| {
+        let mut x = st.get();
+        let v = splitmix(&mut x);
+        st.set(x);
+        v % k != 0
+    })
+}
+
 #[derive(Clone, Debug, Default)]
 pub struct Report {
     pub evaluations: u64,
@@ -229,6 +258,9 @@ impl Report {
     pub fn held(&mut self, cell: impl Into<String>) {
         self.evaluations += 1;
         self.held += 1;
+        if self.evaluations % 5 == 0 && progress_on() {
+            eprintln!("progress: evaluations so far in this worker: {}", self.evaluations);
+        }
         self.cells.insert(cell.into());
     }
     /// one execution judged "violated"; `signature` is structural (seed independent)
@@ -464,6 +496,14 @@ where
 {
     use std::sync::atomic::{AtomicU64, Ordering};
     let next = AtomicU64::new(0);
+    // the sanitizer legs (slow interpreters) show where their time goes
+    let progress = progress_on();
+    // VERIF_SHARD=k/n: this process takes only the jobs j with j % n == k (the Miri leg runs n such processes side by side)
+    let shard: Option<(u64, u64)> = std::env::var("VERIF_SHARD").ok().and_then(|s| {
+        let (k, n) = s.split_once('/')?;
+        Some((k.parse().ok()?, n.parse::<u64>().ok().filter(|n| *n > 0)?))
+    });
+    let t0 = Instant::now();
     let mut total = Report::new();
     let workers = workers.max(1);
     let reports: Vec<Report> = std::thread::scope(|s| {
@@ -479,7 +519,15 @@ where
                             if j >= n_jobs {
                                 break;
                             }
+                            if let Some((k, n)) = shard {
+                                if j % n != k {
+                                    continue;
+                                }
+                            }
                             f(j, &mut r);
+                            if progress {
+                                eprintln!("progress: job {j}/{n_jobs} done at {:.1}s, evaluations so far in this worker: {}", t0.elapsed().as_secs_f64(), r.evaluations);
+                            }
                         }
                         r
                     })
